@@ -228,6 +228,21 @@ func regPrelude(pkg string) {
 		}
 		return nil, true
 	})
+	if pkg == "github.com/akrylysov/pogreb/fs" {
+		// the fs package's verif hook is a scheduling point in the engine
+		reg(p+"verifYield", func(s *State, th *Thread, fr *Frame, args []Value, call *ssa.Call, rk retKind) (Value, bool) {
+			if len(s.threads) == 1 || s.flags["fsYield"] == 0 {
+				return nil, true
+			}
+			if skip := s.flags["fsYieldSkip"]; skip != 0 && s.cint(args[0]) == skip {
+				return nil, true
+			}
+			if !s.schedPoint(th, waitSpec{}) {
+				return nil, false
+			}
+			return nil, true
+		})
+	}
 	reg(p+"vYield", func(s *State, th *Thread, fr *Frame, args []Value, call *ssa.Call, rk retKind) (Value, bool) {
 		if len(s.threads) == 1 {
 			return nil, true
